@@ -146,6 +146,8 @@ let run_srv (line_parts : string list) : string =
     let seen = ref 0 in
     let groups = ref [] in
     let closed = ref false in
+    let gated = ref false in
+    let closed_gated = ref false in
     let maxh = ref 0 in
     let step e =
       st := srv_step cfg !st e;
@@ -159,19 +161,40 @@ let run_srv (line_parts : string list) : string =
       let fresh = List.filteri (fun i _ -> i >= !seen) out in
       seen := List.length out;
       let frames = List.filter_map (fun o -> match o with ODispatch _ -> None | _ -> fmt_out o) fresh in
-      let disp = List.filter_map (fun o -> match o with ODispatch _ -> fmt_out o | _ -> None) fresh in
+      let disp_items = List.filter (fun o -> match o with ODispatch _ -> true | _ -> false) fresh in
+      let sid_of o = match o with ODispatch (sid, _) -> int_of_n sid | _ -> 0 in
+      let disp = List.filter_map fmt_out (List.stable_sort (fun a b -> compare (sid_of a) (sid_of b)) disp_items) in
       let g = if show_gauges then
           [Printf.sprintf "g%d,%s,%d" (List.length (!st).sc_strms) (dec_of_zc (!st).sc_open) (List.length (!st).sc_ring)]
         else [] in
       groups := String.concat ";" (frames @ disp @ extra @ g) :: !groups in
+    let nudge = { sf_kind = KWinUpd; sf_flags = N0; sf_sid = N0; sf_len = n_of_int 4; sf_payload = [];
+                  sf_dep = N0; sf_code = N0; sf_inc = n_of_int 1; sf_set_hastable = false; sf_set_table = n_of_int 4096;
+                  sf_set_haswin = false; sf_set_win = n_of_int 65535 } in
     List.iter (fun ev ->
-        if !closed then groups := "-" :: !groups
-        else begin
+        if !closed then begin
+          if String.trim ev = "RS" && !closed_gated then begin
+            (* the stream loop is let go after the connection went: it works through its queue *)
+            closed_gated := false;
+            let before = List.length (List.filter (fun o -> match o with ODispatch _ -> true | _ -> false) (!st).sc_out) in
+            let rec drain k = if k > 0 && (!st).sc_readerQ <> [] && not (!st).sc_sl_done then (step EvSL; drain (k - 1)) in
+            drain 100000;
+            let after = List.length (List.filter (fun o -> match o with ODispatch _ -> true | _ -> false) (!st).sc_out) in
+            let items = List.init (after - before) (fun _ -> "Xlate") in
+            groups := String.concat ";" (items @ ["E"]) :: !groups
+          end else groups := "-" :: !groups
+        end else begin
           let t = Array.of_list (List.filter (fun x -> x <> "") (String.split_on_char ' ' ev)) in
           (match t.(0) with
+           | "GS" ->
+             step (EvRL (RFrame nudge)); step EvSL; gated := true
+           | "RS" ->
+             gated := false;
+             let rec drain k = if k > 0 && (!st).sc_readerQ <> [] && not (!st).sc_sl_done then (step EvSL; drain (k - 1)) in
+             drain 100000
            | "F" ->
              step (EvRL (RFrame (frame_of_tokens t)));
-             step EvSL
+             if not !gated then step EvSL
            | "B" ->
              let cls = t.(2) in
              let i = if cls = "unknown" then RUnknownType
@@ -179,7 +202,7 @@ let run_srv (line_parts : string list) : string =
                  RBadFrame (Some (n_of_int (int_of_string (String.sub cls 7 (String.length cls - 7)))))
                else RBadFrame None in
              step (EvRL i);
-             step EvSL
+             if not !gated then step EvSL
            | "D" ->
              step (EvDone (n_of_int (int_of_string t.(1)), parse_resp t))
            | "E" ->
@@ -192,6 +215,7 @@ let run_srv (line_parts : string list) : string =
           end else if sl_exited () || rl_exited () then begin
             (* the server is on its way out: the connection gets closed *)
             closed := true;
+            closed_gated := !gated;
             flush_group ["E"; "RET"] false
           end else flush_group [] true
         end) evs;
